@@ -27,6 +27,10 @@ pub enum Op {
     Ignore { lint: u16 },
     ImportWords(Vec<String>),
     ExportClearImportIgnored,
+    /// export, import again without clearing (must be idempotent)
+    ExportImportIgnored,
+    /// export, clear, ignore lint i of the last result, import: both stay hidden
+    ClearIgnoreThenImport { lint: u16 },
     ClearIgnored,
     /// fresh Linter rebuilt from exported words, ignore list and config
     RebuildFromExports,
@@ -348,6 +352,31 @@ pub fn test_api(c: &ApiCase, ctx: &mut CaseCtx) -> Result<(), String> {
                     .import_ignored_lints(json)
                     .map_err(|e| format!("step {step}: import_ignored_lints failed on exported JSON: {e}"))?;
             }
+            Op::ExportImportIgnored => {
+                let json = linter.export_ignored_lints();
+                linter
+                    .import_ignored_lints(json)
+                    .map_err(|e| format!("step {step}: import_ignored_lints failed on exported JSON: {e}"))?;
+            }
+            Op::ClearIgnoreThenImport { lint } => {
+                let json = linter.export_ignored_lints();
+                linter.clear_ignored_lints();
+                if let Some((ti, md, lints)) = &last {
+                    if !lints.is_empty() {
+                        let i = pick_idx(*lint, lints.len());
+                        let inner = inner_of(&lints[i])?;
+                        let doc = model.doc(&texts[*ti], *md);
+                        model.ignored.push(identity(&inner, &doc));
+                        model.ignored_exact.push((*ti, *md, model.words.len(), inner.clone()));
+                        let l = harper_wasm::Lint::from_json(lints[i].to_json()).map_err(|e| e.to_string())?;
+                        linter.ignore_lint(texts[*ti].clone(), l);
+                    }
+                }
+                linter
+                    .import_ignored_lints(json)
+                    .map_err(|e| format!("step {step}: import_ignored_lints failed on exported JSON: {e}"))?;
+                pending_ignore = true;
+            }
             Op::ClearIgnored => {
                 linter.clear_ignored_lints();
                 model.ignored.clear();
@@ -393,14 +422,19 @@ pub fn test_api(c: &ApiCase, ctx: &mut CaseCtx) -> Result<(), String> {
     Ok(())
 }
 
-const IMPORTABLE: &[&str] = &["frobnicate", "Zorblax", "qwertz", "naïvetéx", "harperism", "xkcdish", "teh", "wrold"];
+const IMPORTABLE: &[&str] = &[
+    "frobnicate", "Zorblax", "qwertz", "naïvetéx", "harperism", "xkcdish", "teh", "wrold",
+    // other capitalisations of curated words: reported until imported
+    "linux", "paris", "markdown", "javascript", "monday", "KUBERNETES",
+];
 
 fn api_text() -> BoxedStrategy<String> {
     prop_oneof![
         3 => g::text(),
         2 => g::markup::markdown_doc(),
-        2 => (g::sel_str(IMPORTABLE), g::sentence(), g::sel_str(IMPORTABLE))
+        3 => (g::sel_str(IMPORTABLE), g::sentence(), g::sel_str(IMPORTABLE))
             .prop_map(|(a, s, b)| format!("The {a} is an problem. {s} We like {b} and {a}.")),
+        1 => Just("Their is an apple, an problem, teh wrold and a  double space. I could of gone. the the cat".to_string()),
         1 => Just("I could **of** done it. Their is teh `code` here.".to_string()),
     ]
     .boxed()
@@ -418,6 +452,8 @@ fn op() -> BoxedStrategy<Op> {
         3 => any::<u16>().prop_map(|lint| Op::Ignore { lint }),
         2 => proptest::collection::vec(prop_oneof![3 => g::sel_str(IMPORTABLE), 1 => g::near_word()], 1..3).prop_map(Op::ImportWords),
         1 => Just(Op::ExportClearImportIgnored),
+        1 => Just(Op::ExportImportIgnored),
+        2 => any::<u16>().prop_map(|lint| Op::ClearIgnoreThenImport { lint }),
         1 => Just(Op::ClearIgnored),
         1 => Just(Op::RebuildFromExports),
         2 => proptest::collection::vec((cfg_key, prop_oneof![Just(Some(true)), Just(Some(false)), Just(None)]), 1..3).prop_map(Op::SetConfig),
